@@ -245,6 +245,98 @@ func keywordList(repo, file string) []string {
 	return out
 }
 
+// traversal tables: for every `case *ast.X:` of the big type switch in fn, the
+// fields visited, in order.  call is "Walk" (Walk(f, n.F)) or "apply" (a.apply(n, "F", nil, n.F)).
+func traversal(repo, file, fn, call string) [][2]interface{} {
+	fset := token.NewFileSet()
+	f, err := parser.ParseFile(fset, filepath.Join(repo, file), nil, 0)
+	if err != nil {
+		die("%v", err)
+	}
+	var fd *ast.FuncDecl
+	for _, d := range f.Decls {
+		if x, ok := d.(*ast.FuncDecl); ok && x.Name.Name == fn {
+			fd = x
+		}
+	}
+	if fd == nil {
+		die("%s: func %s not found", file, fn)
+	}
+	var sw *ast.TypeSwitchStmt
+	for _, s := range fd.Body.List {
+		if x, ok := s.(*ast.TypeSwitchStmt); ok {
+			sw = x
+		}
+	}
+	if sw == nil {
+		die("%s: %s: no type switch", file, fn)
+	}
+	var out [][2]interface{}
+	for _, c := range sw.Body.List {
+		cc := c.(*ast.CaseClause)
+		if cc.List == nil {
+			continue
+		}
+		for _, t := range cc.List {
+			name := exprString(t)
+			if !strings.HasPrefix(name, "*ast.") {
+				if name == "nil" {
+					continue
+				}
+				die("%s: %s: case %s is not *ast.X", file, fn, name)
+			}
+			kind := strings.TrimPrefix(name, "*ast.")
+			fields := []string{}
+			ast.Inspect(cc, func(n ast.Node) bool {
+				ce, ok := n.(*ast.CallExpr)
+				if !ok {
+					return true
+				}
+				switch call {
+				case "Walk":
+					if id, ok := ce.Fun.(*ast.Ident); ok && id.Name == "Walk" && len(ce.Args) == 2 {
+						arg := exprString(ce.Args[1])
+						if strings.HasPrefix(arg, "n.") {
+							fields = append(fields, strings.TrimPrefix(arg, "n."))
+						} else if arg == "item" {
+							fields = append(fields, "*Items")
+						} else {
+							die("%s: %s: case %s: unexpected Walk argument %s", file, fn, kind, arg)
+						}
+					}
+				case "apply":
+					if se, ok := ce.Fun.(*ast.SelectorExpr); ok && (se.Sel.Name == "apply" || se.Sel.Name == "applyList") && len(ce.Args) >= 2 {
+						nm, ok := strLit(ce.Args[1])
+						if !ok {
+							die("%s: %s: case %s: apply field is not a literal", file, fn, kind)
+						}
+						if se.Sel.Name == "applyList" {
+							nm = "*" + nm
+						}
+						fields = append(fields, nm)
+					}
+				}
+				return true
+			})
+			out = append(out, [2]interface{}{kind, fields})
+		}
+	}
+	return out
+}
+
+func emitTraversal(name string, t [][2]interface{}) string {
+	var b strings.Builder
+	fmt.Fprintf(&b, "Definition %s : list (string * list string) :=\n  [ ", name)
+	for i, e := range t {
+		if i > 0 {
+			b.WriteString(";\n    ")
+		}
+		fmt.Fprintf(&b, "(%s, %s)", coqStr(e[0].(string)), coqList(e[1].([]string)))
+	}
+	b.WriteString(" ].\n")
+	return b.String()
+}
+
 func main() {
 	if len(os.Args) != 3 {
 		die("usage: translator <repo> <outdir>")
@@ -266,6 +358,14 @@ func main() {
 	k.WriteString("Definition pg_reserved : list string :=\n  " + coqList(keywordList(repo, "internal/engine/postgresql/reserved.go")) + ".\n\n")
 	k.WriteString("Definition my_reserved : list string :=\n  " + coqList(keywordList(repo, "internal/engine/dolphin/reserved.go")) + ".\n")
 	write(filepath.Join(outdir, "Reserved.v"), k.String())
+
+	var w strings.Builder
+	w.WriteString("(** GENERATED by /verif/translator from internal/sql/astutils/{walk,rewrite}.go — do not edit.\n    For each node kind the child fields in the order astutils.Walk / astutils.Apply visit them;\n    \"*Items\" stands for the elements of a List.  A kind that is absent makes Walk panic. *)\n")
+	w.WriteString("From Coq Require Import List String.\nImport ListNotations.\nOpen Scope string_scope.\n\n")
+	w.WriteString(emitTraversal("walk_fields", traversal(repo, "internal/sql/astutils/walk.go", "Walk", "Walk")))
+	w.WriteString("\n")
+	w.WriteString(emitTraversal("apply_fields", traversal(repo, "internal/sql/astutils/rewrite.go", "apply", "apply")))
+	write(filepath.Join(outdir, "WalkOrder.v"), w.String())
 }
 
 // write only when the content changed, so that make does not rebuild needlessly
